@@ -329,6 +329,34 @@ def run_one(ck, prog):
         ck.ob("C04.3", "should_trim=size>trim_check", ok, fn=st["path"], detail=f"should_trim must be `size > self.trim_check`, found {show(r[0]) if r else None}")
     for a, b in ((DL + "sys_trim", D + "syscall_free_part"), (DL + "sys_trim", DL + "release_unused_segments"), (DL + "release_unused_segments", D + "syscall_free")):
         ck.ob("C04.3", f"calls|{a.split('::')[-1]}->{b.split('::')[-1]}", b in cg.callees.get(a, ()), fn=a, detail=f"{a.split('::')[-1]} must reach {b.split('::')[-1]}")
+    # sys_trim asks the kernel to shrink the mapping from the size it HAS to a smaller one: syscall_free_part(base, old, old - extra) with
+    # `old` the segment's recorded size as it still stands (a record reduced beforehand makes it mremap(n, n): nothing is unmapped, yet the
+    # allocator books the tail as released - and the same happens on every later trim)
+    stf = prog.fns.get(DL + "sys_trim")
+    if stf is not None:
+        c3 = prog.ctx(stf)
+        parts = [bb for bb, t in c3.cfg.calls(lambda t: t.get("callee") == D + "syscall_free_part")]
+        for pb in parts:
+            a = c3.args(pb)
+            ok = False
+            if len(a) >= 3:
+                oldv, newv = strip_casts(a[1]), strip_casts(a[2])
+                if isinstance(newv, tuple) and newv[0] == "bin" and newv[1] in ("Sub", "SubUnchecked") and canon(strip_casts(newv[2])) == canon(oldv):
+                    ok = True
+                if isinstance(newv, tuple) and newv[0] == "call" and (newv[1] or "").endswith(("::wrapping_sub", "::saturating_sub", "::unchecked_sub")) and newv[2] and canon(strip_casts(newv[2][0])) == canon(oldv):
+                    ok = True
+                # and the record is not reduced before the kernel was asked
+                early = []
+                for b in stf["blocks"]:
+                    if b.get("cleanup") or b["id"] not in c3.cfg.live_blocks() or not (pb in c3.cfg.reachable_from(b["id"]) and b["id"] != pb):
+                        continue
+                    for st_ in b["stmts"]:
+                        if st_["k"] == "assign" and st_["dst"].get("p") and st_["dst"]["p"][-1].get("k") == "field" and st_["dst"]["p"][-1].get("n") == "size" and (st_["dst"]["p"][-1].get("adt") or "").endswith("Segment"):
+                            early.append(b["id"])
+                ok = ok and not early
+            ck.ob("C04.3", "trim-asks-the-kernel-for-old-size-minus-the-release", ok, fn=stf["path"], site=c3.site(pb),
+                  detail=f"syscall_free_part is called with sizes ({show(a[1])[:60]}, {show(a[2])[:60]}); the new size must be the old recorded size minus what is released, the record still unreduced")
+        ck.floor("C04.3", "partial releases in sys_trim", len(parts), 1)
     rel = [bb for bb, t in cfg.calls(lambda t: (t.get("callee") or "").endswith("Dlmalloc::release_unused_segments"))]
     ck.ob("C04.3", "free-counts-down-release_checks", len(rel) == 1, fn=fr["path"], detail=f"release_unused_segments call sites in free: {len(rel)}")
     for rb in rel:
